@@ -68,6 +68,7 @@ pub fn replay(property: &str, part: &str, case: &serde_json::Value) -> Option<Re
         ("C16", "over-the-wire") => replay_part(&c16::OverTheWire, case, 1),
         ("C18", "many-peers") => replay_part(&c18::ManyPeers, case, 1),
         ("C18", "cancel-storm") => replay_part(&c18::CancelStorm, case, 1),
+        ("C09", "disconnect-under-readers") => replay_part(&c09::DisconnectUnderReaders, case, 3),
         ("C05", "close-notice-race") => replay_part(&c05::CloseNoticeRace, case, 3),
         ("C02", "traffic") => replay_part(&c02::Traffic(4_000_000), case, 1),
         ("C11", "calls") => replay_part(&c11::Calls, case, 1),
